@@ -21,7 +21,7 @@ RULE = ('a case = 1-3 synthetic data sets of one format (MVF v4 in-memory telsta
         'also v3+v4 mixtures) with 2-7 dumps each, distinct start times (sometimes equal: refused), equal dump periods '
         '(sometimes different: must be refused), 1-3 target events per part drawn from a pool of 6 targets incl. shared '
         'aliases and a same-name-different-target pair, 1-4 activity events, 0-3 labels, float / string / int / bool '
-        '(now and then uint8) sensors and directly assigned int arrays each present in a random subset of the parts, '
+        '/ unsigned integer (uint8 / 16 / 32, also different widths in different parts) sensors and directly assigned int arrays each present in a random subset of the parts, '
         'sometimes parts of another subarray (other antenna, same products in another order, same antenna names at '
         'another position) and / or spectral window (centre frequency, channel width, product, band), also several of '
         'both; concatenated in a random input order through katdal.open([...]) or '
@@ -38,8 +38,10 @@ ASSUMPTIONS = ['parts of a case cover disjoint time ranges (compatible data sets
                'common dump grid) get a model-free battery of index-free criteria against the stand-alone parts',
                'subarrays / spectral windows are identified by their public attributes (antenna descriptions and '
                'correlation products in order; centre_freq, channel_width, num_chans, sideband, band, product, bandwidth)',
-               'a sensor of an unsigned integer type missing from a part: open finding C19-F4; once repaired any single '
-               'filler value over the absent parts is accepted',
+               'the dummy value of an unsigned integer type of b bits is its largest value 2^b - 1 (the value the documented '
+               'integer dummy -1 is stored as; Model/Concat.v spec_dummy_u), b = the width of numpy\'s promotion of the '
+               'dtypes of the parts that have the sensor; uint64 sensors are not generated (2^64 - 1 does not fit the 63-bit '
+               'integers of the extracted driver; the theorems hold for any width)',
                'parts whose subarrays / spectral windows differ in the NUMBER of products / channels are not generated '
                '(the v4 indexers of such a concatenation raise on any data access)',
                'second-stage indices are restricted to the forms C05 proves for ConcatenatedLazyIndexer: no negative '
@@ -144,8 +146,10 @@ def gen_case(rng):
                 break
     pool = rng.sample(range(len(c19parts.TARGETS)), rng.randint(2, 4))
     present = {s: [rng.random() < 0.6 for _ in range(k)] for s in SHORTS}
-    if rng.random() >= 0.12:
-        present['u'] = [False] * k      # sensors of an unsigned integer type (open finding C19-F4) only now and then
+    if rng.random() >= 0.45:
+        present['u'] = [False] * k      # sensors of an unsigned integer type (finding C19-F4, repaired) in about half the cases
+    # one width for all parts, or (now and then) different widths in different parts: numpy's promotion = the widest
+    uwidths = [rng.choice(['u', 'u', 'u16', 'u32'])] * k if rng.random() < 0.7 else [rng.choice(['u', 'u16', 'u32']) for _ in range(k)]
     arr_present = [rng.random() < 0.5 for _ in range(k)] if rng.random() < 0.2 else [False] * k
     parts = []
     for i in range(k):
@@ -162,7 +166,7 @@ def gen_case(rng):
         if present['i'][i]:
             sens['i'] = ('i', gen_events(rng, T, [-1, 0, 3, 5], first=rng.random() < 0.8, maxn=2) or [(0, 3)])
         if present['u'][i]:
-            sens['u'] = ('u', gen_events(rng, T, [0, 3, 200, 255], first=rng.random() < 0.8, maxn=2) or [(0, 3)])
+            sens['u'] = (uwidths[i], gen_events(rng, T, [0, 3, 200, 255], first=rng.random() < 0.8, maxn=2) or [(0, 3)])
         if present['b'][i]:
             sens['b'] = ('b', gen_events(rng, T, [True, False], first=rng.random() < 0.8, maxn=2) or [(0, True)])
         spec = dict(fmt=fmts[i], T=T, start=starts[i], dt=dts[i], ants=list(ants[i]), F=F, cfv=cfv[i],
@@ -248,6 +252,9 @@ class Ids:
                         cs.disagree('stage=ident;what=%s_eq_vs_model' % which, impl, model[which][i] == model[which][j],
                                     'the model of %s.__eq__ differs from the implementation' % ('Subarray' if which == 'sub' else 'SpectralWindow'),
                                     kind='tie', entries=[repr(raw[j]), repr(raw[i])])
+        if out[3] != [2 ** 8 - 1, 2 ** 16 - 1, 2 ** 32 - 1]:
+            cs.disagree('stage=ident;what=unsigned_dummy_table_vs_model', out[3], [2 ** b - 1 for b in (8, 16, 32)],
+                        'the dummy values of uint8 / 16 / 32 read from dummy_sensor_getter are not the largest values of the types', kind='tie')
         if out[2] != [NAN, -1, 0, 0, -8888]:
             cs.disagree('stage=ident;what=dummy_table_vs_model', out[2], [NAN, -1, 0, 0, -8888],
                         'the dummy values read from dummy_sensor_getter are not nan / -1 / \'\' / False / None', kind='tie')
@@ -317,9 +324,20 @@ def read_sensor(d, name, ids):
     except KeyError:
         return None
     if isinstance(x, CategoricalData):
-        return ('cat', dtype_code(x.dtype), cd_wire(x, lambda v: vid(ids, v)), np.dtype(x.dtype).kind if x.dtype is not None else 'O')
+        return ('cat', dtype_code(x.dtype), cd_wire(x, lambda v: vid(ids, v)), np.dtype(x.dtype).kind if x.dtype is not None else 'O',
+                np.dtype(x.dtype) if x.dtype is not None else None)
     x = np.asarray(x)
-    return ('num', int(x.dtype.kind == 'f'), [vid(ids, v) for v in x.tolist()], x.dtype.kind)
+    return ('num', int(x.dtype.kind == 'f'), [vid(ids, v) for v in x.tolist()], x.dtype.kind, x.dtype)
+
+
+def unsigned_bits(sens_of_parts):
+    """0, or the width in bits of numpy's promotion of the dtypes of the parts that have the sensor when that is an
+    unsigned integer type (what katdal's common_dtype hands dummy_sensor_getter)."""
+    dts = [s[4] for s in sens_of_parts if s is not None and s[4] is not None]
+    if not dts or any(dt.kind not in 'iu' for dt in dts):
+        return 0
+    rt = np.result_type(*dts)
+    return rt.itemsize * 8 if rt.kind == 'u' else 0
 
 
 def sensor_names(case):
@@ -503,30 +521,15 @@ def stage_open(cs, parts, twins_info, c, exc, out, names, how):
                 x = read_sensor(c, n, ids)
             except Exception as e:      # noqa: BLE001
                 x = ('raised', repr(e), type(e).__name__)
-            if cs.uns[j] and cs.lacks[j]:
-                # unsigned integer type, missing from a part: finding C19-F4 (dummy_sensor_getter: np.uint8(-1))
-                dead.add(j)
-                if x is not None and x[0] == 'raised':
+            if cs.uns[j]:
+                ctx.count('unsigned_sensor_bits=%d;%s' % (cs.uns[j], 'missing_from_a_part' if cs.lacks[j] else 'in_every_part'))
+                if x is not None and x[0] == 'raised' and cs.lacks[j]:
+                    # the symptom of finding C19-F4 (repaired): dummy_sensor_getter cannot make the dummy of an unsigned type
+                    dead.add(j)
                     ctx.disagree('stage=sensor;what=unsigned_missing_raises;exc=%s' % x[2], cs.doc(name=n), x[1], ms,
                                  'a sensor of an unsigned integer type that some part lacks cannot be read from the concatenation',
                                  spec=ss[0] if ss else None)
-                    if ms != [3]:
-                        cs.disagree('stage=sensor;what=unsigned_vs_model;name=%s' % short_name(n), x[1], ms, 'model answers', kind='tie')
-                elif x is not None:
-                    # (a repaired dummy_sensor_getter) the parts that have it as they are, ONE filler value elsewhere
-                    per_dump = x[2] if x[0] == 'num' else expand_wire(x[2])
-                    segs_ = [int(v) for v in c._segments]
-                    okv = ss and len(per_dump) == len(ss[0])
-                    for pi, sidx in enumerate(cs.sorted_twins):
-                        if not okv:
-                            break
-                        a, b = per_dump[segs_[pi]:segs_[pi + 1]], ss[0][segs_[pi]:segs_[pi + 1]]
-                        okv = (a == b) if twins_info[sidx]['sens'][n] is not None else len(set(a)) == 1
-                    if not okv:
-                        cs.disagree('stage=sensor;what=values;name=%s' % short_name(n), per_dump, ms,
-                                    'sensor is not the concatenation of the parts with dummy fill', spec=ss[0] if ss else None)
-                    ctx.count('unsigned_missing_filled')
-                continue
+                    continue
             if x is None:
                 if ss:
                     cs.disagree('stage=sensor;what=keyerror;name=%s' % short_name(n), 'KeyError', ms,
@@ -1299,7 +1302,7 @@ def run_case(ctx, cseed, gen=None, stages=('open', 'data', 'select', 'scans', 'o
             cs.t_epoch = t_epoch = min(o['ts'][0] for o in infos)
             order = gen['order']
             wire_parts = [part_wire(infos[i], t_epoch, unit, starts, dps, names) for i in order]
-            cs.uns = [any(o['sens'][n] is not None and o['sens'][n][3] == 'u' for o in infos) for n in names]
+            cs.uns = [unsigned_bits([o['sens'][n] for o in infos]) for n in names]
             cs.lacks = [any(o['sens'][n] is None for o in infos) and any(o['sens'][n] is not None for o in infos) for n in names]
             wnames = [[j, 0, int(cs.uns[j])] for j in range(len(names))]
             out = ctx.model([[19, [wire_parts, wnames, [int(x) for x in gen['keep']]]]])[0]
